@@ -7,6 +7,7 @@ import (
 	"io"
 	"log/slog"
 	"net/http"
+	"net/http/httptest"
 	"strings"
 	"time"
 
@@ -35,7 +36,15 @@ import (
 //	        guesses × header variants on a fresh handler each; an issued session
 //	        is then presented twice to the issuer and twice to another instance
 //	seq     every sequence of length 1..3 (thorough 1..4) over seven operations on
-//	        ONE handler instance, the reference tracking a browser cookie jar
+//	        ONE handler instance whose mux carries the REAL handler methods of
+//	        every dashboard route (always-down database), the reference tracking
+//	        a browser cookie jar fed by EVERY response (seq.go)
+//	visit   [earlier operation,] a GET/POST to ANY dashboard route from loopback /
+//	        public with / without the jar [thorough: two of them], then the jar is
+//	        presented from a public address to every protected route (seq.go)
+//	conc    N concurrent requests on one wrapped route under the controlled
+//	        scheduler: every interleaving of the statements of shovel/web with a
+//	        bounded number of preemptions (conc.go) — schedule exploration
 //	sweep   a session issued by this handler with the character at EVERY position
 //	        changed, and cut to EVERY proper prefix length, each presented 2×
 type Case struct {
@@ -50,7 +59,17 @@ type Case struct {
 	Route    string   `json:"route,omitempty"`
 	Guess    string   `json:"guess,omitempty"`
 	Seq      []string `json:"seq,omitempty"`
-	Repeat   int      `json:"repeat,omitempty"` // authn: how many times the same request is presented to the same handler
+	Repeat   int      `json:"repeat,omitempty"`  // authn: how many times the same request is presented to the same handler
+	Threads  []string `json:"threads,omitempty"` // conc: one request kind per concurrent thread
+	Choices  []int    `json:"choices,omitempty"` // conc: the schedule (explorer choice sequence, trailing zeros trimmed)
+}
+
+func mustJSON(v any) json.RawMessage {
+	b, err := json.Marshal(v)
+	if err != nil {
+		b, _ = json.Marshal(fmt.Sprint(v))
+	}
+	return b
 }
 
 func (k Case) cfg() cfg { return cfg{k.Disable, k.LoopAuth, k.PW} }
@@ -61,26 +80,31 @@ func mk(kind string, k cfg) Case {
 
 func init() {
 	checks.Register(&checks.Check{
-		ID:        "C19",
-		Level:     "exploration",
-		Technique: "exhaustive enumeration of configuration × request tuples and short operation sequences on the real web.Handler via httptest, against a reference access predicate; route table parsed from main.go",
+		ID:    "C19",
+		Level: "exploration",
+		Technique: "exhaustive enumeration of configuration × request tuples and short request histories on the real web.Handler via httptest, against a reference access predicate; route table parsed from main.go; " +
+			"plus preemption-bounded schedule exploration (controlled scheduler, a scheduling point before every statement of package shovel/web, DFS over choice sequences) of 2–3 concurrent requests on one handler",
 		Rule: "Every case is self-contained (own handler instances, own logins, own request history) and the oracle judges every request of the case. " +
 			"routes: every mux.Handle/HandleFunc statement of cmd/shovel/main.go + the five required protected paths. " +
 			"authn: {disable_authn}×{enable_loopback_authn}×{configured,generated password}×remote address (10; thorough 25: v4/v6/v4-mapped loopback, private, public, unspecified, malformed, empty)×14 cookie states " +
 			"(none, 3 garbage, issued by this handler via loopback/remote login, issued by another handler instance ×2, one character changed ×3, truncated ×2, right value under another name)×3 proxy-header variants×methods (4; thorough 7)×every protected route; the same request is presented 2× (thorough 3×) to the same handler. " +
 			"login: same configurations×addresses×5 methods×8 guesses (correct, wrong first/last byte, empty, missing, proper prefix, correct+suffix, other case)×3 header variants, each on a fresh handler; every issued session is presented 2× to the issuer and 2× to a second instance. " +
-			"seq: all sequences of length 1..3 (thorough 1..4) over {login-ok-loopback, login-ok-remote, login-wrong, login-ok-elsewhere (correct login to ANOTHER instance, cookie goes to the jar), protected-with-jar-cookie, protected-without-cookie, protected-with-garbage-cookie} × 8 configurations on one handler. " +
+			"seq: all sequences of length 1..3 (thorough 1..4) over {login-ok-loopback, login-ok-remote, login-wrong, login-ok-elsewhere (correct login to ANOTHER instance, cookie goes to the jar), protected-with-jar-cookie, protected-without-cookie, protected-with-garbage-cookie} × 8 configurations on one handler whose mux mirrors main.go with the real handler methods; a Set-Cookie under the session name in ANY response replaces the jar, and the jar is a valid session only if a correct-password login to this handler filled it. " +
+			"visit: 8 configurations × {no earlier operation, login-ok-remote, login-wrong, login-ok-elsewhere} × one request (thorough additionally: two requests) to any dashboard route registered in main.go × {GET,POST} × {loopback, public} × {with, without jar}, then the jar is presented from a public address with GET and POST to every protected route. " +
+			"conc (schedule exploration, NOT plain enumeration): authn in force (disable_authn off) × enable_loopback_authn × every ordered pair (thorough also every ordered triple) of request kinds {operator with a session from a login made before the concurrent phase, public visitor without cookie / with garbage cookie / with another process's cookie, loopback visitor}, one controlled thread per request, all on the same Authn-wrapped route of one handler; all interleavings at statement granularity of shovel/web with ≤2 preemptions (thorough: pairs ≤3 on every protected route and both password modes, triples ≤2); a case is (configuration, route, kinds, choice sequence) and every request of every execution is judged by the same per-request oracle. " +
 			"sweep: every single-character change and every proper prefix of an issued session, presented 2×. " +
 			"Every case is one distinct tuple; a case is non-trivial when disable_authn is off (loopback/session logic decides) — for login cases additionally when the method is POST (the password decides).",
 		Assumptions: []string{
 			"requests are delivered with net/http semantics (ServeMux + httptest recorder); no sockets, TLS or reverse proxy in front",
-			"the protected inner handlers are recording stubs: what AddSource/SaveSource/… do once reached is not judged here",
+			"in the authn/login/sweep/conc parts the protected inner handlers are recording stubs; in the seq/visit parts they are the real methods running against a database that is down: what AddSource/SaveSource/… do once reached is not judged, only whether they were reached and which cookies any response hands out",
+			"conc: interleavings are explored at the granularity of statements of package shovel/web (instrumented build, VERIF_STMT_YIELD=shovel/web); net/http, kr/session and age run atomically between two scheduling points; schedules with more preemptions than the bound are not explored; weak-memory effects are out of scope (that is C18's race detector)",
+			"a session cookie re-issued in answer to a request that itself carried a valid session counts as valid (renewal); one handed to anybody else does not",
 			"the route table is read from the source text of cmd/shovel/main.go (the file the binary was built from, overlay-aware); registrations made elsewhere or through other identifiers than <x>.Handle/<x>.HandleFunc with a literal pattern are not seen",
 			"GET /login is judged only for status in {200,500} and absence of Set-Cookie (its template is not judged)",
 			"cookie attributes (Secure, MaxAge, SameSite) and session expiry are not judged",
 			"the generated password is read from the unexported Handler.password field by reflection (after a GET /login from loopback if the handler holds none yet); an empty or absent guess is never the password",
 		},
-		Budget:        map[string]time.Duration{"quick": 60 * time.Second, "thorough": 600 * time.Second},
+		Budget:        map[string]time.Duration{"quick": 120 * time.Second, "thorough": 800 * time.Second},
 		MinNontrivial: 20000,
 		Run:           run,
 		Replay:        replay,
@@ -229,11 +253,16 @@ func judgeAuthn(c *fw.Ctx, rt *routeTable, cas Case) string {
 // judgeProtected serves one request to a protected route and compares with the
 // reference; ok=false when a violation was reported.
 func judgeProtected(c *fw.Ctx, e *env, r *http.Request, cas Case, loopback, valid bool, cookieKind, keyPrefix, keySuffix, what string) (out string, ok bool) {
+	out, ok, _ = judgeProtectedRec(c, e, r, cas, loopback, valid, cookieKind, keyPrefix, keySuffix, what)
+	return out, ok
+}
+
+func judgeProtectedRec(c *fw.Ctx, e *env, r *http.Request, cas Case, loopback, valid bool, cookieKind, keyPrefix, keySuffix, what string) (out string, ok bool, rec *httptest.ResponseRecorder) {
 	allowed, why := allowedRef(e.k, loopback, valid)
 	rec, p := e.serve(r)
 	if p != nil {
 		c.Violation("C19", "panic", keyPrefix+"panic", fmt.Sprintf("%+v: %spanic: %v", cas, what, p), cas)
-		return "panic", false
+		return "panic", false, rec
 	}
 	ranHere, ranOther := e.ran[cas.Route], 0
 	for path, n := range e.ran {
@@ -251,23 +280,23 @@ func judgeProtected(c *fw.Ctx, e *env, r *http.Request, cas Case, loopback, vali
 	case !allowed && ranHere+ranOther > 0:
 		c.Violation("C19", "unauthenticated", keyPrefix+"served-not-allowed/"+lb+"/cookie-"+cookieKind+keySuffix,
 			fmt.Sprintf("%+v: %sreference denies (authn enabled, %s remote, cookie %s) but the protected handler was served: %s", cas, what, lb, cookieKind, obs), cas)
-		return "served:NOT-ALLOWED", false
+		return "served:NOT-ALLOWED", false, rec
 	case allowed && ranHere+ranOther == 0:
 		c.Violation("C19", "mismatch", keyPrefix+"denied-allowed/"+why+keySuffix,
 			fmt.Sprintf("%+v: %sreference allows (%s) but the protected handler did not run: %s", cas, what, why, obs), cas)
-		return "denied:ALLOWED", false
-	case allowed && (ranHere != 1 || ranOther != 0 || rec.Code != 200):
+		return "denied:ALLOWED", false, rec
+	case allowed && (ranHere != 1 || ranOther != 0 || (!e.real && rec.Code != 200)):
 		c.Violation("C19", "mismatch", keyPrefix+"bad-served"+keySuffix,
 			fmt.Sprintf("%+v: %sallowed (%s): expected the stub of %s exactly once and status 200: %s", cas, what, why, cas.Route, obs), cas)
-		return "served:odd", false
+		return "served:odd", false, rec
 	case !allowed && (rec.Code != http.StatusSeeOther || loc != "/login"):
 		c.Violation("C19", "mismatch", keyPrefix+"bad-redirect"+keySuffix,
 			fmt.Sprintf("%+v: %sdenied: expected 303 to /login: %s", cas, what, obs), cas)
-		return "denied:odd", false
+		return "denied:odd", false, rec
 	case allowed:
-		return "served:" + why, true
+		return "served:" + why, true, rec
 	}
-	return "redirect:cookie-" + cookieKind, true
+	return "redirect:cookie-" + cookieKind, true, rec
 }
 
 func methods(thorough bool) []string {
@@ -540,147 +569,6 @@ func partLogin(c *fw.Ctx, rt *routeTable) {
 	}
 }
 
-// ---- part 4: sequences on one handler ---------------------------------------
-
-var seqOps = []string{"login-ok-loopback", "login-ok-remote", "login-wrong", "login-ok-elsewhere", "protected-jar-cookie", "protected-no-cookie", "protected-garbage-cookie"}
-
-// judgeSeq runs the operations on ONE handler (plus one "other process" for
-// login-ok-elsewhere). The reference keeps a browser style jar: a Set-Cookie
-// replaces the jar content; the jar holds a valid session iff its content came
-// from a correct-password login TO THIS handler. Every protected request of
-// the sequence is judged.
-func judgeSeq(c *fw.Ctx, rt *routeTable, cas Case) string {
-	k := cas.cfg()
-	e, err := newEnv(k, rt)
-	if err != nil {
-		c.HarnessError("%v", err)
-		return "harness"
-	}
-	var other *env
-	route := rt.Enum[0].Path
-	jar, jarValid, jarKind := "", false, "none"
-	last := ""
-	for i, op := range cas.Seq {
-		step := fmt.Sprintf("step %d (%s) of %v", i+1, op, cas.Seq)
-		switch op {
-		case "login-ok-loopback", "login-ok-remote", "login-wrong", "login-ok-elsewhere":
-			target, remote, guess := e, remotePublic, "correct"
-			if op == "login-ok-loopback" {
-				remote = remoteLoopback
-			}
-			if op == "login-wrong" {
-				guess = "wrong-last"
-			}
-			if op == "login-ok-elsewhere" {
-				if other == nil {
-					if other, err = newEnv(k, rt); err != nil {
-						c.HarnessError("%v", err)
-						return "harness"
-					}
-				}
-				target = other
-			}
-			r, _, err := target.loginReq("POST", remote, "none", guess)
-			if err != nil {
-				c.HarnessError("%v", err)
-				return "harness"
-			}
-			rec, p := target.serve(r)
-			if p != nil {
-				c.Violation("C19", "panic", "seq/panic", fmt.Sprintf("%+v: %s: panic: %v", cas, step, p), cas)
-				return "panic"
-			}
-			ck := sessionCookie(rec)
-			nset := len(rec.Header().Values("Set-Cookie"))
-			if guess == "correct" {
-				if rec.Code != http.StatusSeeOther || nset != 1 || ck == nil || ck.Value == "" {
-					c.Violation("C19", "mismatch", "seq/correct-password-rejected", fmt.Sprintf("%+v: %s: status %d, %d Set-Cookie", cas, step, rec.Code, nset), cas)
-					return "seq:login-ok:odd"
-				}
-				if op == "login-ok-remote" && !ck.Secure {
-					// not judged (cookie attributes are outside the property); recorded as an observation
-					c.Count("obs_remote_login_cookie_not_secure_after_loopback_login", 1)
-				}
-				jar = ck.Name + "=" + ck.Value
-				if target == e {
-					jarValid, jarKind, last = true, "valid", "login-ok"
-				} else {
-					jarValid, jarKind, last = false, "foreign", "login-elsewhere"
-				}
-			} else {
-				if nset > 0 {
-					c.Violation("C19", "unauthenticated", "seq/session-issued-for-wrong-password", fmt.Sprintf("%+v: %s: wrong password but %d Set-Cookie header(s), status %d", cas, step, nset, rec.Code), cas)
-					if ck != nil {
-						jar, jarValid, jarKind = ck.Name+"="+ck.Value, false, "invalid" // a browser would store it
-					}
-				} else if rec.Code != http.StatusUnauthorized {
-					c.Violation("C19", "mismatch", "seq/wrong-password-status", fmt.Sprintf("%+v: %s: status %d", cas, step, rec.Code), cas)
-				}
-				last = "login-401"
-			}
-		case "protected-jar-cookie", "protected-no-cookie", "protected-garbage-cookie":
-			hdr, valid, kind := "", false, "none"
-			if op == "protected-jar-cookie" && jar != "" {
-				hdr, valid, kind = jar, jarValid, jarKind
-			}
-			if op == "protected-garbage-cookie" {
-				hdr, kind = sessionCookieName+"=garbage", "invalid"
-			}
-			r, _ := protectedReq("GET", route, remotePublic, "none", hdr)
-			scas := cas
-			scas.Route = route
-			last, _ = judgeProtected(c, e, r, scas, false, valid, kind, "seq/", "", step+": ")
-		default:
-			c.HarnessError("unknown sequence operation %q", op)
-			return "harness"
-		}
-	}
-	return "seq-end:" + last
-}
-
-func partSeq(c *fw.Ctx, rt *routeTable) {
-	maxLen := 3
-	if c.Thorough() {
-		maxLen = 4
-	}
-	c.Bound("seq_max_len", maxLen)
-	c.Bound("seq_alphabet", seqOps)
-	var seqs [][]string
-	var rec func(prefix []string)
-	rec = func(prefix []string) {
-		if len(prefix) > 0 {
-			seqs = append(seqs, append([]string{}, prefix...))
-		}
-		if len(prefix) == maxLen {
-			return
-		}
-		for _, op := range seqOps {
-			rec(append(prefix, op))
-		}
-	}
-	rec(nil)
-	for _, k := range allCfgs() {
-		for _, s := range seqs {
-			if !c.Mine() {
-				continue
-			}
-			if c.Expired() {
-				return
-			}
-			cas := mk("seq", k)
-			cas.Remote, cas.Seq = remotePublic, s
-			out := judgeSeq(c, rt, cas)
-			c.Eval(!k.Disable)
-			c.Outcome(out)
-			c.Count("seq_sequences", 1)
-			c.Count("seq_steps", int64(len(s)))
-			if len(s) == maxLen && c.Shard%4 == 0 && s[0] == "login-ok-loopback" {
-				c.Sample(map[string]any{"case": cas, "outcome": out})
-			}
-		}
-	}
-}
-
 // ---- run / replay -----------------------------------------------------------
 
 func run(c *fw.Ctx) {
@@ -697,6 +585,8 @@ func run(c *fw.Ctx) {
 	partAuthn(c, rt)
 	partLogin(c, rt)
 	partSeq(c, rt)
+	partVisit(c, rt)
+	partConc(c, rt)
 	partSweep(c, rt)
 }
 
@@ -717,6 +607,8 @@ func replay(c *fw.Ctx, raw json.RawMessage) {
 		judgeRoute(c, rt, k.Route)
 	case "authn":
 		fmt.Println("outcome:", judgeAuthn(c, rt, k))
+	case "conc":
+		replayConc(c, rt, k)
 	case "login":
 		fmt.Println("outcome:", judgeLogin(c, rt, k))
 	case "seq":
